@@ -315,7 +315,7 @@ Section Traffic.
       + simpl. rewrite Hs1. unfold quiet_state. simpl. repeat split; auto. rewrite Hb1. lia.
       + rewrite Hs1. destruct (x_cancelled x1) eqn:Ec.
         * simpl. rewrite Ec. simpl. rewrite Hs1. unfold quiet_state. simpl. repeat split; auto.
-          rewrite !set_online_q. exact Hq1.
+          unfold set_online. rewrite Ho1. reflexivity.
         * destruct (retry_call below (go_online responder user x1)) as [x2 o2] eqn:E2.
           assert (Sg : x_sent (go_online responder user x1) = true) by reflexivity.
           assert (Kg : sends_ok user (x_log (go_online responder user x1))).
